@@ -4,16 +4,21 @@ package main
 
 import (
 	"context"
+	"encoding/json"
 	"fmt"
 	"math/big"
+	"net/http/httptest"
+	"net/url"
 	"sort"
 	"strings"
 	"time"
 
 	ledger "github.com/formancehq/ledger/internal"
 	"github.com/formancehq/ledger/internal/storage/ledgerstore"
+	"github.com/formancehq/ledger/xverif/lib/engineh"
 	"github.com/formancehq/ledger/xverif/lib/evid"
 	"github.com/formancehq/ledger/xverif/lib/memstore"
+	"github.com/formancehq/ledger/xverif/lib/recbackend"
 	"github.com/formancehq/stack/libs/go-libs/metadata"
 	"github.com/formancehq/stack/libs/go-libs/query"
 )
@@ -477,6 +482,232 @@ func c04ValueFilters(rep *evid.Reporter, root *c04State) (filters, reads int) {
 				}
 			}
 		}()
+	}
+	// the v1 API spells its filters as query parameters: each is sent through the real router
+	b := recbackend.New("l1")
+	b.R = recbackend.Reads{GetAccountsWithVolumes: s.GetAccountsWithVolumes, CountAccounts: s.CountAccounts, GetAggregatedBalances: s.GetAggregatedBalances,
+		GetLogs: s.GetLogs, CountTransactions: s.CountTransactions, GetTransactions: s.GetTransactions,
+		GetAccountWithVolumes: s.GetAccountWithVolumes, GetTransactionWithVolumes: s.GetTransactionWithVolumes}
+	router := newRouter(b, false)
+	type v1f struct {
+		params string
+		acc    func(a string) bool
+		tx     func(t *ledger.Transaction) bool
+	}
+	var v1 []v1f
+	for _, op := range []string{"e", "ne", "lt", "lte", "gt", "gte"} {
+		for _, n := range []int64{0, 5, 10} {
+			op, n := op, n
+			v1 = append(v1, v1f{params: fmt.Sprintf("balance=%d&balanceOperator=%s", n, op), acc: func(a string) bool {
+				bal := fold.Balance(a, "X")
+				c := bal.Cmp(big.NewInt(n))
+				switch op {
+				case "e":
+					return c == 0
+				case "ne":
+					return c != 0
+				case "lt":
+					return c < 0
+				case "lte":
+					return c <= 0
+				case "gt":
+					return c > 0
+				}
+				return c >= 0
+			}})
+		}
+	}
+	for _, a := range []string{"orders:", "users:1", ":7", "orders"} {
+		a := a
+		m := func(addr string) bool {
+			ps, as := strings.Split(a, ":"), strings.Split(addr, ":")
+			if len(ps) != len(as) {
+				return false
+			}
+			for i := range ps {
+				if ps[i] != "" && ps[i] != as[i] {
+					return false
+				}
+			}
+			return true
+		}
+		v1 = append(v1, v1f{params: "address=" + url.QueryEscape(a), acc: m})
+		v1 = append(v1, v1f{params: "account=" + url.QueryEscape(a), tx: func(t *ledger.Transaction) bool {
+			for _, ps := range t.Postings {
+				if m(ps.Source) || m(ps.Destination) {
+					return true
+				}
+			}
+			return false
+		}})
+		v1 = append(v1, v1f{params: "source=" + url.QueryEscape(a), tx: func(t *ledger.Transaction) bool {
+			for _, ps := range t.Postings {
+				if m(ps.Source) {
+					return true
+				}
+			}
+			return false
+		}})
+		v1 = append(v1, v1f{params: "destination=" + url.QueryEscape(a), tx: func(t *ledger.Transaction) bool {
+			for _, ps := range t.Postings {
+				if m(ps.Destination) {
+					return true
+				}
+			}
+			return false
+		}})
+	}
+	for _, kv := range [][2]string{{"tier", "gold"}, {"tier", "silver"}, {"vip", "yes"}} {
+		kv := kv
+		v1 = append(v1, v1f{params: url.QueryEscape("metadata["+kv[0]+"]") + "=" + kv[1], acc: func(a string) bool { return fold.AccountMeta(a)[kv[0]] == kv[1] }})
+	}
+	for _, v := range []string{"sale", "refund"} {
+		v := v
+		v1 = append(v1, v1f{params: url.QueryEscape("metadata[kind]") + "=" + v, tx: func(t *ledger.Transaction) bool { return t.Metadata["kind"] == v }})
+	}
+	for _, v := range []string{"r-1", "nope"} {
+		v := v
+		v1 = append(v1, v1f{params: "reference=" + v, tx: func(t *ledger.Transaction) bool { return t.Reference == v }})
+	}
+	for _, ts := range []ledger.Time{c04T0, c04T1, {Time: c04T1.Time.Add(time.Second)}} {
+		ts := ts
+		enc := url.QueryEscape(ts.Time.UTC().Format(time.RFC3339Nano))
+		v1 = append(v1, v1f{params: "start_time=" + enc, tx: func(t *ledger.Transaction) bool { return !t.Timestamp.Time.Before(ts.Time) }})
+		v1 = append(v1, v1f{params: "end_time=" + enc, tx: func(t *ledger.Transaction) bool { return t.Timestamp.Time.Before(ts.Time) }})
+		v1 = append(v1, v1f{params: "start_time=" + url.QueryEscape(c04T0.Time.UTC().Format(time.RFC3339Nano)) + "&end_time=" + enc, tx: func(t *ledger.Transaction) bool {
+			return !t.Timestamp.Time.Before(c04T0.Time) && t.Timestamp.Time.Before(ts.Time)
+		}})
+	}
+	for _, after := range []int64{0, 2, 3, 9} {
+		after := after
+		v1 = append(v1, v1f{params: fmt.Sprintf("after=%d", after), tx: func(t *ledger.Transaction) bool { return t.ID.Cmp(big.NewInt(after)) < 0 }})
+	}
+	// v1 logs: after / start_time / end_time (entries are dated c04Base + n seconds)
+	type logf struct {
+		params string
+		sel    func(l *ledger.ChainedLog) bool
+	}
+	var lf []logf
+	for _, after := range []int64{0, 3, 100} {
+		after := after
+		lf = append(lf, logf{fmt.Sprintf("after=%d", after), func(l *ledger.ChainedLog) bool { return l.ID.Cmp(big.NewInt(after)) < 0 }})
+	}
+	for _, n := range []int{0, 3, 100} {
+		ts := c04Base.Add(time.Duration(n) * time.Second)
+		enc := url.QueryEscape(ts.UTC().Format(time.RFC3339Nano))
+		lf = append(lf, logf{"start_time=" + enc, func(l *ledger.ChainedLog) bool { return !l.Date.Time.Before(ts) }})
+		lf = append(lf, logf{"end_time=" + enc, func(l *ledger.ChainedLog) bool { return l.Date.Time.Before(ts) }})
+	}
+	for _, f := range lf {
+		filters++
+		replay := map[string]interface{}{"engine": "pgmini-filters", "v1_logs_params": f.params}
+		name := f.params[:strings.Index(f.params, "=")]
+		req := httptest.NewRequest("GET", "/api/ledger/l1/logs?pageSize=100&"+f.params, nil).WithContext(engineh.QuietCtx())
+		w := httptest.NewRecorder()
+		panicked := false
+		func() {
+			defer func() {
+				if r := recover(); r != nil {
+					panicked = true
+					rep.Violation("filter-v1-logs-panic:"+name, fmt.Sprintf("GET v1 logs?%s panics: %v", f.params, r), replay)
+				}
+			}()
+			router.ServeHTTP(w, req)
+		}()
+		reads++
+		if panicked {
+			continue
+		}
+		var body struct {
+			Cursor struct {
+				Data []map[string]interface{} `json:"data"`
+			} `json:"cursor"`
+			ErrorMessage string `json:"errorMessage"`
+		}
+		_ = json.Unmarshal(w.Body.Bytes(), &body)
+		if w.Code != 200 {
+			rep.Violation("filter-v1-logs-error:"+name, fmt.Sprintf("GET v1 logs?%s answers %d %s", f.params, w.Code, body.ErrorMessage), replay)
+			continue
+		}
+		var got, want []string
+		for _, it := range body.Cursor.Data {
+			got = append(got, fmt.Sprint(it["id"]))
+		}
+		for i := len(logs) - 1; i >= 0; i-- {
+			if f.sel(logs[i]) {
+				want = append(want, logs[i].ID.String())
+			}
+		}
+		if fmt.Sprint(got) != fmt.Sprint(want) {
+			rep.Violation("filter-v1-logs-result:"+name, fmt.Sprintf("GET v1 logs?%s lists ids %v, the log has %v (newest first)", f.params, got, want), replay)
+		}
+	}
+	for _, f := range v1 {
+		filters++
+		replay := map[string]interface{}{"engine": "pgmini-filters", "v1_params": f.params}
+		viol := func(kind, why string) {
+			name := f.params
+			if i := strings.IndexAny(name, "=&"); i > 0 {
+				name = name[:i]
+			}
+			rep.Violation("filter-v1-"+kind+":"+name, why+" [GET v1 ...?"+f.params+"]", replay)
+		}
+		path := "accounts"
+		if f.tx != nil {
+			path = "transactions"
+		}
+		req := httptest.NewRequest("GET", "/api/ledger/l1/"+path+"?pageSize=100&"+f.params, nil).WithContext(engineh.QuietCtx())
+		w := httptest.NewRecorder()
+		func() {
+			defer func() {
+				if r := recover(); r != nil {
+					viol("panic", fmt.Sprint("the endpoint panics: ", r))
+				}
+			}()
+			router.ServeHTTP(w, req)
+		}()
+		reads++
+		var body struct {
+			Cursor struct {
+				Data []map[string]interface{} `json:"data"`
+			} `json:"cursor"`
+			ErrorCode    string `json:"errorCode"`
+			ErrorMessage string `json:"errorMessage"`
+		}
+		_ = json.Unmarshal(w.Body.Bytes(), &body)
+		if w.Code != 200 {
+			if strings.Contains(body.ErrorMessage, "pgmini: unsupported") {
+				rep.Undecide("interpreter: " + body.ErrorMessage)
+				continue
+			}
+			viol("error", fmt.Sprintf("a filter parameter the endpoint documents and parses is answered with %d %s %s", w.Code, body.ErrorCode, body.ErrorMessage))
+			continue
+		}
+		var got, want []string
+		if f.acc != nil {
+			for _, it := range body.Cursor.Data {
+				got = append(got, fmt.Sprint(it["address"]))
+			}
+			for _, a := range accounts {
+				if f.acc(a) {
+					want = append(want, a)
+				}
+			}
+		} else {
+			for _, it := range body.Cursor.Data {
+				got = append(got, fmt.Sprint(it["txid"]))
+			}
+			for _, id := range fold.TxIDs() {
+				if f.tx(fold.Tx(id)) {
+					want = append(want, id)
+				}
+			}
+			sort.Strings(got)
+			sort.Strings(want)
+		}
+		if fmt.Sprint(got) != fmt.Sprint(want) {
+			viol("result", fmt.Sprintf("the listing answers %v, evaluating the filter on the replayed log selects %v", got, want))
+		}
 	}
 	return filters, reads
 }
